@@ -513,6 +513,14 @@ func (e *penv) mkInbound(m *msgInfo, kind string, seed uint64) []byte {
 	}
 	n := len(set.Keys)
 	q := vh.RefQuorum(n)
+	if n == 0 {
+		// an empty guardian set (the loop accepts whatever the watcher reports): nobody can have signed
+		switch kind {
+		case "garbage", "truncated", "flip-body":
+		default:
+			return signedVAA(m, set, set.Index, nil)
+		}
+	}
 	switch kind {
 	case "quorum":
 		return signedVAA(m, set, set.Index, subset(n, q, seed))
